@@ -163,6 +163,18 @@ CHECKS = {
         note='Trusted: Lean kernel; standard axioms; the model of repr / literal lexing (validated per string against CPython, code points < 128 exact, printable ones above pass through); '
              'that every emission site uses repr is established by the end-to-end sweep (AST of the generated module), not by a Lean model of all translators.',
         technique='Lean 4 proof (escape/unescape round trip for all strings) + differential correspondence with CPython repr + canary / AST inertness sweep on the real code', design='5/C07'),
+    'C02': dict(
+        text='Lean 4 theorems over the model of handle_cell / Excel._fill_cell / get_matrix / Cell.uid / the sheet-title part of the reference tokens: an area has exactly '
+             'r2-r1+1 rows of c2-c1+1 entries and entry (i,j) is the cell (c1+j, r1+i) - exactly those coordinates, each once (coordinates_nodup), row-major (matrix_rows, '
+             'matrix_row_length, matrix_entry, matrix_flatten); a cell inside the read data is the stored value, cells beyond it read as blank (fetch_spec, fetch_outside); a '
+             'whole-column area spans every row of the sheet (whole_columns_rows); no prefix means the formula\'s own sheet, an unknown title is rejected, a resolved title is that '
+             'title (own_sheet_default, unknown_title_rejected, known_title_resolves); quoting then unquoting a title is the identity for every title (unquote_quote); column '
+             'letters <-> numbers are inverse for every column (col_roundtrip, both directions, unbounded); distinct coordinates have distinct method names (uid_injective). '
+             'Tie B: workbooks whose cells encode their coordinates, 2-5 sheets with hostile titles in random order, every reference form / $ form / prefix form, columns to XFD, '
+             'rows to 5 digits, areas beyond the used range, whole columns, wrapped in SUM / COUNT / INDEX, unknown titles: values vs the model and vs an independent decode.',
+        note='Trusted: Lean kernel; standard axioms; the regexes that lex a reference spelling are not modelled (scan_spelling of the design is not proved): a spelling is tied to its '
+             'coordinates only by the end-to-end sweep; openpyxl column_index_from_string is an external validated exhaustively (C14).',
+        technique='Lean 4 proof over hand model + differential correspondence + independent coordinate-decoding oracle', design='5/C02'),
 }
 
 WIP = set()   # built, proofs in progress: not claimed until green
